@@ -497,6 +497,9 @@ func (e *Env) Finish() int {
 	if len(e.Cov.Samples) == 0 {
 		cov["samples"] = []any{"(no sample recorded)"}
 	}
+	if e.Assume == nil {
+		e.Assume = []string{}
+	}
 	ev := evidence{e.ID, e.Tier, e.Seed, "model_checking", cov, e.Assume, time.Since(e.Start).Seconds(), len(viol)}
 	b, _ := json.MarshalIndent(ev, "", " ")
 	os.MkdirAll(filepath.Join(Root, "evidence"), 0o755)
